@@ -162,6 +162,25 @@ func ruleSnapshotComplete(c *Ctx, ix *PkgIndex, rule string) {
 				nodes = append(nodes, x)
 				rhs = r
 			}
+			// the field given in the composite literal that creates the snapshot value
+			inspectNoLit(x.N, func(n ast.Node) bool {
+				cl, ok := n.(*ast.CompositeLit)
+				if !ok {
+					return true
+				}
+				if nn := namedOf(info.TypeOf(cl)); nn == nil || nn.Obj() != st.Obj() {
+					return true
+				}
+				for _, el := range cl.Elts {
+					if kv, isKV := el.(*ast.KeyValueExpr); isKV {
+						if id, isID := kv.Key.(*ast.Ident); isID && info.Uses[id] == types.Object(fld) {
+							nodes = append(nodes, x)
+							rhs = kv.Value
+						}
+					}
+				}
+				return true
+			})
 		}
 		w, known := want[fld.Name()]
 		if !known {
